@@ -16,7 +16,7 @@ From V.gen Require Consts.
 From V.common Require Import Wire Varint Protobuf.
 From V.C18 Require Model.
 From V.C03 Require Model.
-From V.C19 Require Import Model Proofs.
+From V.C19 Require Import Model Proofs MsProofs.
 Import ListNotations.
 Open Scope N_scope.
 
@@ -158,6 +158,15 @@ Theorem C19_alloc_multistream :
   end.
 Proof. exact decode_msg_size. Qed.
 Print Assumptions C19_alloc_multistream.
+
+(* the ls response: Message::decode (Message::encode (Protocols ps)) = Protocols ps for up to
+   MAX_PROTOCOLS names accepted by Protocol::try_from (C03 leaves this message out of its codec
+   theorem) *)
+Theorem C19_roundtrip_multistream_protocols :
+  forall ps, Forall wf_lsname ps -> N.of_nat (length ps) <= Consts.C03_MAX_PROTOCOLS ->
+  V.C03.Model.decode_msg (V.C03.Model.encode_msg (V.C03.Model.MProtos ps)) = V.C03.Model.DOk (V.C03.Model.MProtos ps).
+Proof. exact protocols_roundtrip. Qed.
+Print Assumptions C19_roundtrip_multistream_protocols.
 
 (* LengthDelimited: under every read script, the frame buffer is never sized above 16383 bytes
    and no frame longer than that is handed out *)
